@@ -12,6 +12,73 @@ from ..lin import Lin
 from ..repo import chain, params, src, strip_docstring, calls, walk_no_nested
 from ..tables import Bool, Sign, check_table, SKIP
 
+from ..localroles import rename, name_of, unique, calls_to, assigned_names
+
+
+def _roles_adapters_from_args(repo):
+    fn0 = repo.func("cli", "adapters_from_args")
+    m = {}
+    rets = [n.value for n in ast.walk(fn0) if isinstance(n, ast.Return) and isinstance(n.value, ast.Tuple) and len(n.value.elts) == 2]
+    if len(rets) == 1:
+        for e, c_ in zip(rets[0].elts, ("adapters", "adapters2")):
+            if isinstance(e, ast.Name):
+                m[e.id] = c_
+    sp = {x.args[1].id for x in calls_to(fn0, "make_adapters_from_specifications") if len(x.args) >= 2 and isinstance(x.args[1], ast.Name)}
+    if len(sp) == 1:
+        m[sp.pop()] = "search_parameters"
+    return rename(fn0, m)
+
+
+def _roles_parse_search_parameters(repo):
+    fn0 = repo.func("parser", "parse_search_parameters")
+    m = {}
+    rets = [n.value for n in ast.walk(fn0) if isinstance(n, ast.Return) and isinstance(n.value, ast.Name)]
+    if len({r.id for r in rets}) == 1:
+        m[rets[0].id] = "result"
+    for k, vs in assigned_names(fn0).items():
+        if any(isinstance(v, ast.Dict) and len(v.keys) >= 3 for v in vs):
+            m[k] = "allowed_parameters"
+    for n in ast.walk(fn0):
+        if isinstance(n, (ast.Assign, ast.AnnAssign)) and isinstance(n.value, ast.Call) and isinstance(n.value.func, ast.Attribute) and n.value.func.attr == "partition":
+            t = n.targets[0] if isinstance(n, ast.Assign) else n.target
+            if isinstance(t, ast.Tuple) and len(t.elts) == 3:
+                for e, c_ in zip(t.elts, ("key", "equals", "value")):
+                    if isinstance(e, ast.Name):
+                        m[e.id] = c_
+                if isinstance(n.value.func.value, ast.Name):
+                    m[n.value.func.value.id] = "field"
+    return rename(fn0, m)
+
+
+def _roles_make_not_linked(repo):
+    fn0 = repo.func("parser", "_make_not_linked_adapter")
+    m = {}
+    for k, vs in assigned_names(fn0).items():
+        if any(isinstance(v, ast.Call) and chain(v.func) == "AdapterSpecification.parse" for v in vs):
+            m[k] = "aspec"
+    inv = {v: k for k, v in m.items()}
+    for k, vs in assigned_names(fn0).items():
+        if any(isinstance(v, ast.Call) and chain(v.func) == f"{inv.get('aspec')}.adapter_class" for v in vs):
+            m[k] = "adapter_class"
+        if any(isinstance(v, ast.Call) and isinstance(v.func, ast.Attribute) and v.func.attr == "copy" for v in vs):
+            m[k] = "parameters"
+    return rename(fn0, m)
+
+
+def _roles_read_adapters_fasta(repo):
+    fn0 = repo.func("parser", "read_adapters_fasta")
+    m = {}
+    for k, vs in assigned_names(fn0).items():
+        if any(isinstance(v, ast.Call) and chain(v.func) == "FastaReader" for v in vs):
+            m[k] = "fasta"
+    inv = {v: k for k, v in m.items()}
+    for n in ast.walk(fn0):
+        if isinstance(n, ast.For) and isinstance(n.iter, ast.Name) and n.iter.id == inv.get("fasta") and isinstance(n.target, ast.Name):
+            m[n.target.id] = "record"
+        if isinstance(n, ast.Yield) and isinstance(n.value, ast.Tuple) and len(n.value.elts) == 2 and isinstance(n.value.elts[0], ast.Name):
+            m[n.value.elts[0].id] = "name"
+    return rename(fn0, m)
+
 
 def run(repo, report, tier):
     report.rule("C18.R1", "-a/-g/-b (and -A/-G/-B) tag their specification as back/front/anywhere; lower case goes to adapters, upper case to adapters2", "-a would search a 5' adapter")
@@ -49,7 +116,7 @@ def r1_options(repo, report):
                 got = str(e)
             ok = got == (typ, "SPEC")
         report.ob("C18.R1", f"option {flag}", ok, facts={"dest": o[0].dest if o else None, "type(SPEC)": got}, expected={"dest": dest, "type(SPEC)": [typ, "SPEC"]}, loc=repo.loc(o[0].node) if o else "src/cutadapt/cli.py")
-    fn = repo.func("cli", "adapters_from_args")
+    fn = _roles_adapters_from_args(repo)
     cs = [x for x in calls(fn) if chain(x.func) == "make_adapters_from_specifications"]
     ok = len(cs) == 2 and [src(c.args[0]) for c in cs] == ["args.adapters", "args.adapters2"]
     tg = [src(n.targets[0]) for n in ast.walk(fn) if isinstance(n, ast.Assign) and isinstance(n.value, ast.Call) and chain(n.value.func) == "make_adapters_from_specifications"]
@@ -235,7 +302,7 @@ def r2_classes(repo, report):
 
 
 def r3_parameters(repo, report):
-    fn = repo.func("parser", "parse_search_parameters")
+    fn = _roles_parse_search_parameters(repo)
     tbl = [n for n in ast.walk(fn) if isinstance(n, ast.Assign) and chain(n.targets[0]) == "allowed_parameters" and isinstance(n.value, ast.Dict)]
     if len(tbl) != 1:
         raise Unrecognised("allowed_parameters table not found", repo.loc(fn))
@@ -295,7 +362,7 @@ def r3_parameters(repo, report):
     ok = len(tr) == 1 and src(tr[0].body[0]) == "value = int(value)" and src(tr[0].handlers[0].body[0]) == "value = float(value)" and chain(tr[0].handlers[0].type) == "ValueError"
     report.ob("C18.R3", "value conversion", ok, facts={"try": src(tr[0])[:120] if tr else None}, expected="int(value), else float(value); a bare key means True", loc=repo.loc(fn))
     # 'anywhere' becomes force_anywhere only for the three regular classes
-    f = repo.func("parser", "_make_not_linked_adapter")
+    f = _roles_make_not_linked(repo)
     ifs = [n for n in ast.walk(f) if isinstance(n, ast.If) and "'anywhere'" in src(n.test)]
     ok = len(ifs) == 1 and "aspec.parameters['force_anywhere'] = True" in src(ifs[0]) and all(k in src(ifs[0].test) for k in ("FrontAdapter", "BackAdapter", "RightmostFrontAdapter"))
     for cn in ("FrontAdapter", "BackAdapter"):
@@ -428,7 +495,7 @@ def r5_file(repo, report):
     got = {k: v for k, v in tbl.items() if k != "other"}
     report.ob("C18.R5", "anchoring characters of file notation", got == want, facts={k: sorted(v) for k, v in tbl.items()}, expected={k: sorted(v) for k, v in want.items()}, loc=repo.loc(f2), cases=len(rows),
               why="" if got == want else "the anchoring character is not re-attached at the end named by the notation")
-    raf = repo.func("parser", "read_adapters_fasta")
+    raf = _roles_read_adapters_fasta(repo)
     ys = [src(n.value) for n in ast.walk(raf) if isinstance(n, ast.Yield)]
     report.ob("C18.R5", "read_adapters_fasta yields (name, sequence) of every record", ys == ["(name, record.sequence)"] and any(isinstance(n, ast.For) and src(n.iter) == "fasta" for n in ast.walk(raf)), facts={"yields": ys}, expected="for record in fasta: yield name, record.sequence", loc=repo.loc(raf))
 
